@@ -41,6 +41,13 @@ class Malformed(Exception):
     pass
 
 
+class TooBig(Exception):
+    """joint dimension beyond what the monitor is willing to build (inconclusive, never a verdict)"""
+
+
+MAX_JOINT = 2600
+
+
 # --------------------------------------------------------------------------- world
 
 
@@ -459,6 +466,13 @@ def denote(sn: Snap, names=None, D=None):
     order = []
     dims = []
     rho = np.array([[1.0 + 0j]])
+    tot = 1
+    for b in bl:
+        for m in b["members"]:
+            dd = fock_dim(sn.subs[m])
+            tot *= max(D.get(m, 0), dd) if sn.subs[m]["kind"] == "F" else dd
+    if tot > MAX_JOINT:
+        raise TooBig(f"joint dimension {tot}")
     for b in bl:
         r, d = block_rho(b, sn)
         nd = [max(D.get(m, 0), dd) if sn.subs[m]["kind"] == "F" else dd for m, dd in zip(b["members"], d)]
